@@ -299,19 +299,30 @@ def replace_sorted_heapq(source: str) -> str:
     template_first_n = core.compile_template("sequence[:{{n}}]", n=ast.AST).slice
     template_last_n = core.compile_template("sequence[-{{n}}:]", n=ast.AST).slice
 
+    # Of an empty list, [0] raises IndexError, min() raises ValueError: not where a handler
+    # may tell them apart
+    try_types = tuple(t for t in (ast.Try, getattr(ast, "TryStar", None)) if t is not None)
+    inside_try = {
+        node
+        for try_node in core.walk(root, try_types)
+        if try_node.handlers
+        for child in try_node.body
+        for node in ast.walk(child)
+    }
+
     for node in core.walk(root, template_sorted_subscript):
         args = node.value.args
         keywords = node.value.keywords
         node_slice = _slice_of(node)
         if core.match_template(node_slice, template_first_element):
-            if "min" in rebound:
+            if "min" in rebound or node in inside_try:
                 continue
             replacement = ast.Call(
                 func=builtin_min, args=args, keywords=keywords, lineno=node.lineno
             )
             yield node, replacement
         elif core.match_template(node_slice, template_last_element):
-            if "max" in rebound:
+            if "max" in rebound or node in inside_try:
                 continue
             replacement = ast.Call(
                 func=builtin_max, args=args, keywords=keywords, lineno=node.lineno
